@@ -1,4 +1,8 @@
 import EupsModel.Lemmas.VersionMatch
+import EupsModel.Lemmas.VersionAcross
+import EupsModel.Lemmas.VersionExpr
+import EupsModel.Lemmas.VersionPrint
+import EupsModel.Lemmas.VersionList
 import EupsModel.Lemmas.VersionLex
 /-! C10 — version names are ordered consistently: property theorems.
 
@@ -53,6 +57,22 @@ def n_1d2p1 : Str := [49, 46, 50, 43, 49]   -- 1.2+1
 #guard Str.toString n_1d2p1 == "1.2+1"
 def n_a1db2 : Str := [97, 49, 46, 98, 50]   -- a1.b2
 #guard Str.toString n_a1db2 == "a1.b2"
+
+def n_1d8a : Str := [49, 46, 56, 97]   -- 1.8a
+#guard Str.toString n_1d8a == "1.8a"
+def n_1d80 : Str := [49, 46, 56, 48]   -- 1.80
+#guard Str.toString n_1d80 == "1.80"
+def n_0a : Str := [48, 97]   -- 0a
+#guard Str.toString n_0a == "0a"
+def n_09 : Str := [48, 57]   -- 09
+#guard Str.toString n_09 == "09"
+
+def n_10d0 : Str := [49, 48, 46, 48]   -- 10.0
+#guard Str.toString n_10d0 == "10.0"
+def n_3d0 : Str := [51, 46, 48]   -- 3.0
+#guard Str.toString n_3d0 == "3.0"
+def n_4d0 : Str := [52, 46, 48]   -- 4.0
+#guard Str.toString n_4d0 == "4.0"
 
 /-! ## which names are accepted; the model's recursion bound -/
 
@@ -240,6 +260,47 @@ example : stdCompare false n_1d2 n_1d2d0 = .ok (-1) := by decide
 example : stdCompare false n_1d2mrc1 n_1d2 = .ok (-1) ∧ stdCompare false n_1d2p1 n_1d2 = .ok 1 := by decide
 example : stdCompare false n_1d2mrc1p3 n_1d2p1 = .ok (-1) := by decide
 
+/-! ## at the level of strings: what a name splits into, and the clauses about pre-releases and post-releases
+
+`Piece s`: `s` is non-empty, has no `-`/`+`, and does not end in `m<digits>`/`p<digits>` (the `VVVm#`/`VVVp#`
+spelling, which `_splitVersion` reads as `VVV-#`/`VVV+#`). -/
+
+/-- **print/parse**: the names `p`, `p-e`, `p+f`, `p-e+f` built from pieces split into exactly these pieces
+(`lex` is the model of `_splitVersion` applied to the name and again to its parts). -/
+theorem C10_lex_print (p e f : Str) (hp : Piece p) (he : Piece e) (hf : Piece f) :
+    lex p = .ok (.node p .absent .absent) ∧
+    lex (p ++ 45 :: e) = .ok (.node p (.node e .absent .absent) .absent) ∧
+    lex (p ++ 43 :: f) = .ok (.node p .absent (.node f .absent .absent)) ∧
+    lex (p ++ 45 :: (e ++ 43 :: f)) = .ok (.node p (.node e .absent .absent) (.node f .absent .absent)) :=
+  ⟨lex_piece hp, lex_pre ⟨hp.1, hp.2.1⟩ he, lex_post ⟨hp.1, hp.2.1⟩ hf, lex_pre_post ⟨hp.1, hp.2.1⟩ he hf⟩
+
+/-- **A pre-release precedes the release, as strings**: `p-e < p` and `p-e+f < p` for all pieces. -/
+theorem C10_prerelease_precedes_str (p e f : Str) (hp : Piece p) (he : Piece e) (hf : Piece f) :
+    stdCompare false (p ++ 45 :: e) p = .ok (-1) ∧ stdCompare false (p ++ 45 :: (e ++ 43 :: f)) p = .ok (-1) := by
+  obtain ⟨h1, h2, _, h4⟩ := C10_lex_print p e f hp he hf
+  exact ⟨C10_prerelease_precedes _ _ _ _ h2 h1 (by simp [Lexed.comps, Lexed.prim, cmpComps_self]) rfl rfl,
+    C10_prerelease_precedes _ _ _ _ h4 h1 (by simp [Lexed.comps, Lexed.prim, cmpComps_self]) rfl rfl⟩
+
+/-- **A post-release follows the release, as strings**: `p < p+f`, and `p-e < p-e+f`. -/
+theorem C10_postrelease_follows_str (p e f : Str) (hp : Piece p) (he : Piece e) (hf : Piece f) :
+    stdCompare false (p ++ 43 :: f) p = .ok 1 ∧
+    stdCompare false (p ++ 45 :: (e ++ 43 :: f)) (p ++ 45 :: e) = .ok 1 := by
+  obtain ⟨h1, h2, h3, h4⟩ := C10_lex_print p e f hp he hf
+  refine ⟨C10_postrelease_follows _ _ _ _ h3 h1 (by simp [Lexed.comps, Lexed.prim, cmpComps_self]) rfl rfl
+    f .absent .absent rfl hf.1 rfl, ?_⟩
+  -- equal primaries and equal pre-release parts: the post-release part decides
+  simp only [stdCompare, h4, h2, cmpLexed, Bool.false_eq_true, if_false, Except.ok.injEq]
+  rw [cmpSort_unfold]
+  simp only [Lexed.comps, Lexed.prim, cmpComps_self, ne_eq, not_true_eq_false, if_false, secTer, Lexed.sec, Lexed.present,
+    Bool.or_self, Bool.and_self, if_true, cmpSort_self, Lexed.ter]
+  rw [cmpSort_unfold]
+  simp only [Lexed.comps, Lexed.prim, splitSep]
+  rw [cmpComps_splitSep_absent hf.1]; simp
+
+example : Piece n_1d2 ∧ Piece n_rc1 ∧ Piece n_3 := by
+  refine ⟨⟨by decide, ?_, by decide⟩, ⟨by decide, ?_, by decide⟩, ⟨by decide, ?_, by decide⟩⟩ <;>
+    (intro c hc; simp [n_1d2, n_rc1, n_3] at hc; simp [notPM]; omega)
+
 /-! ## relational requests
 
 `versionMatch x expr` is the model of `Eups.version_match(x, expr)` being truthy.  `render t ts` is the
@@ -322,6 +383,275 @@ theorem C10_match_implicit_eq (x v : Str) (hv : wfName v) (h1 : v ≠ sAnd) (h2 
   have e1 : hasRelop opEq = true := by decide
   simp [versionMatch, htok, tokenize_name hv, tailToks, matchLoop, hasRelop_name hv.2, plainTok_name hv, h1, h2, e1]
 
+/-! ## relational requests: every text the parser reads as a chain
+
+`renderG lead t ls trail` is the text: blanks, a term, then operators-with-terms (`Link`), blanks.  A term is
+`op blanks version` or a bare `version` (read as `== version`); an operator is `||` (blanks optional) or
+one of the words `or`, `&&`, `and` (a blank needed on either side, the splitting pattern does not know
+them).  `C10_match_iff` above is the instance "explicit operators, single blanks, `||`". -/
+
+/-- the term holds in the (strict-mode) order -/
+def Holds (x : Str) (t : GTerm) : Prop := ∃ r, stdCompare true x t.name = .ok r ∧ relSem (t.op.getD opEq) r
+
+theorem holds_iff (x : Str) (t : GTerm) (ht : t.Wf) : termHolds (stdCompare true) x t.term = true ↔ Holds x t :=
+  termHolds_iff (stdCompare true) x t.term (GTerm.term_relop ht)
+
+/-- **Alternatives, whatever the spacing and the spelling** (`||` or `or`, operators explicit or implied):
+the request accepts exactly the versions that the order puts in the stated relation to one of its terms. -/
+theorem C10_match_iff_general (x lead : Str) (t : GTerm) (os : List Link) (trail : Str)
+    (hlead : isWs lead) (ht : t.Wf) (hls : ∀ l ∈ os, l.Wf) (htr : isWs trail) (hor : ∀ l ∈ os, l.isOr)
+    (hcmp : ∀ y ∈ t :: os.map Link.term, ∃ r, stdCompare true x y.name = .ok r) :
+    versionMatch x (renderG lead t os trail) = .ok true ↔ ∃ y ∈ t :: os.map Link.term, Holds x y := by
+  simp only [versionMatch]
+  rw [versionMatch_renderG (stdCompare true) x lead t os trail hlead ht hls htr hcmp, evalLinks_or _ _ os hor]
+  simp only [Except.ok.injEq, Bool.or_eq_true, List.any_eq_true, List.mem_cons, List.mem_map, exists_eq_or_imp]
+  rw [holds_iff x t ht]
+  constructor
+  · rintro (h | ⟨l, hl, h⟩)
+    · exact Or.inl h
+    · exact Or.inr ⟨l.term, ⟨l, hl, rfl⟩, (holds_iff x l.term (hls l hl).2.2.1).mp h⟩
+  · rintro (h | ⟨y, ⟨l, hl, rfl⟩, h⟩)
+    · exact Or.inl h
+    · exact Or.inr ⟨l, hl, (holds_iff x l.term (hls l hl).2.2.1).mpr h⟩
+
+/-- **`&&` / `and` chains** (documented as not supported; the code reads them): a conjunction. -/
+theorem C10_match_and_chain (x lead : Str) (t : GTerm) (as : List Link) (trail : Str)
+    (hlead : isWs lead) (ht : t.Wf) (hls : ∀ l ∈ as, l.Wf) (htr : isWs trail) (hand : ∀ l ∈ as, l.isAnd)
+    (hcmp : ∀ y ∈ t :: as.map Link.term, ∃ r, stdCompare true x y.name = .ok r) :
+    versionMatch x (renderG lead t as trail) = .ok true ↔ ∀ y ∈ t :: as.map Link.term, Holds x y := by
+  simp only [versionMatch]
+  rw [versionMatch_renderG (stdCompare true) x lead t as trail hlead ht hls htr hcmp]
+  have e := evalLinks_and (fun t => termHolds (stdCompare true) x t.term) (termHolds (stdCompare true) x t.term) as [] hand
+  simp only [List.append_nil] at e
+  rw [e]
+  have hall : (∀ y ∈ t :: as.map Link.term, Holds x y) ↔
+      (termHolds (stdCompare true) x t.term = true ∧ ∀ l ∈ as, termHolds (stdCompare true) x l.term.term = true) := by
+    simp only [List.mem_cons, List.mem_map, forall_eq_or_imp, holds_iff x t ht]
+    constructor
+    · rintro ⟨h1, h2⟩; exact ⟨h1, fun l hl => (holds_iff x l.term (hls l hl).2.2.1).mpr (h2 l.term ⟨l, hl, rfl⟩)⟩
+    · rintro ⟨h1, h2⟩; exact ⟨h1, by rintro y ⟨l, hl, rfl⟩; exact (holds_iff x l.term (hls l hl).2.2.1).mp (h2 l hl)⟩
+  rw [hall]
+  rcases List.eq_nil_or_concat as with rfl | ⟨init, z, rfl⟩
+  · simp [evalLinks]
+  · simp only [List.concat_eq_append, List.getLast?_append, List.getLast?_singleton, Option.some_or,
+      List.dropLast_concat, evalLinks, Except.ok.injEq, Bool.and_eq_true, List.all_eq_true, List.mem_append,
+      List.mem_singleton]
+    constructor
+    · rintro ⟨⟨h1, h2⟩, h3⟩
+      exact ⟨h1, by rintro l (hl | rfl); exact h2 l hl; exact h3⟩
+    · rintro ⟨h1, h2⟩
+      exact ⟨⟨h1, fun l hl => h2 l (Or.inl hl)⟩, h2 z (Or.inr rfl)⟩
+
+/-- **Mixed chains, exactly**: `t && a₁ … && aₖ && z || o₁ … || oₘ [&& …]` is read as
+`t ∧ a₁ ∧ … ∧ aₖ ∧ (z ∨ o₁ ∨ … ∨ oₘ)`, and whatever follows an `&&` that comes after an `||` is never looked
+at — neither the usual precedence nor left-to-right evaluation (see `C10_mixed_logop_witness`). -/
+theorem C10_match_mixed (x lead : Str) (t : GTerm) (init : List Link) (z : Link) (os rest : List Link) (trail : Str)
+    (hlead : isWs lead) (ht : t.Wf) (hls : ∀ l ∈ init ++ z :: (os ++ rest), l.Wf) (htr : isWs trail)
+    (hand : ∀ l ∈ init, l.isAnd) (hz : z.isAnd) (hor : ∀ l ∈ os, l.isOr)
+    (hrest : (rest = [] ∨ os ≠ []) ∧ ∀ l ∈ rest.head?, l.isAnd)
+    (hcmp : ∀ y ∈ t :: (init ++ z :: (os ++ rest)).map Link.term, ∃ r, stdCompare true x y.name = .ok r) :
+    versionMatch x (renderG lead t (init ++ z :: (os ++ rest)) trail) = .ok true ↔
+      Holds x t ∧ (∀ l ∈ init, Holds x l.term) ∧ (Holds x z.term ∨ ∃ l ∈ os, Holds x l.term) := by
+  simp only [versionMatch]
+  rw [versionMatch_renderG (stdCompare true) x lead t _ trail hlead ht hls htr hcmp]
+  have e1 : init ++ z :: (os ++ rest) = (init ++ [z]) ++ (os ++ rest) := by simp
+  have hand' : ∀ l ∈ init ++ [z], l.isAnd := by
+    intro l hl
+    rcases List.mem_append.mp hl with h | h
+    · exact hand l h
+    · simp only [List.mem_singleton] at h; subst h; exact hz
+  rw [e1, evalLinks_and _ _ (init ++ [z]) (os ++ rest) hand']
+  simp only [List.getLast?_append, List.getLast?_singleton, Option.some_or, List.dropLast_concat]
+  have htail : evalLinks (fun t => termHolds (stdCompare true) x t.term) (termHolds (stdCompare true) x z.term.term) (os ++ rest) =
+      (termHolds (stdCompare true) x z.term.term || os.any (fun l => termHolds (stdCompare true) x l.term.term)) := by
+    by_cases hos : os = []
+    · subst hos
+      rcases hrest.1 with h | h
+      · subst h; simp [evalLinks]
+      · exact absurd rfl h
+    · exact evalLinks_or_then_and _ _ os rest hor hos hrest.2
+  rw [htail]
+  have hwf : ∀ l ∈ init ++ z :: (os ++ rest), (termHolds (stdCompare true) x l.term.term = true ↔ Holds x l.term) :=
+    fun l hl => holds_iff x l.term (hls l hl).2.2.1
+  simp only [Except.ok.injEq, Bool.and_eq_true, List.all_eq_true, Bool.or_eq_true, List.any_eq_true, holds_iff x t ht]
+  constructor
+  · rintro ⟨⟨h1, h2⟩, h3⟩
+    refine ⟨h1, fun l hl => (hwf l (by simp [hl])).mp (h2 l hl), ?_⟩
+    rcases h3 with h | ⟨l, hl, h⟩
+    · exact Or.inl ((hwf z (by simp)).mp h)
+    · exact Or.inr ⟨l, hl, (hwf l (by simp [hl])).mp h⟩
+  · rintro ⟨h1, h2, h3⟩
+    refine ⟨⟨h1, fun l hl => (hwf l (by simp [hl])).mpr (h2 l hl)⟩, ?_⟩
+    rcases h3 with h | ⟨l, hl, h⟩
+    · exact Or.inl ((hwf z (by simp)).mpr h)
+    · exact Or.inr ⟨l, hl, (hwf l (by simp [hl])).mpr h⟩
+
+/-- … and `t || o₁ … || oₘ && …`: the alternatives up to the first `&&`; the rest is ignored. -/
+theorem C10_match_or_then_and (x lead : Str) (t : GTerm) (os rest : List Link) (trail : Str)
+    (hlead : isWs lead) (ht : t.Wf) (hls : ∀ l ∈ os ++ rest, l.Wf) (htr : isWs trail)
+    (hor : ∀ l ∈ os, l.isOr) (hos : os ≠ []) (hrest : ∀ l ∈ rest.head?, l.isAnd)
+    (hcmp : ∀ y ∈ t :: (os ++ rest).map Link.term, ∃ r, stdCompare true x y.name = .ok r) :
+    versionMatch x (renderG lead t (os ++ rest) trail) = .ok true ↔ ∃ y ∈ t :: os.map Link.term, Holds x y := by
+  simp only [versionMatch]
+  rw [versionMatch_renderG (stdCompare true) x lead t _ trail hlead ht hls htr hcmp,
+    evalLinks_or_then_and _ _ os rest hor hos hrest]
+  simp only [Except.ok.injEq, Bool.or_eq_true, List.any_eq_true, List.mem_cons, List.mem_map, exists_eq_or_imp]
+  rw [holds_iff x t ht]
+  constructor
+  · rintro (h | ⟨l, hl, h⟩)
+    · exact Or.inl h
+    · exact Or.inr ⟨l.term, ⟨l, hl, rfl⟩, (holds_iff x l.term (hls l (by simp [hl])).2.2.1).mp h⟩
+  · rintro (h | ⟨y, ⟨l, hl, rfl⟩, h⟩)
+    · exact Or.inl h
+    · exact Or.inr ⟨l, hl, (holds_iff x l.term (hls l (by simp [hl])).2.2.1).mpr h⟩
+
+/-- The request never fails on such a text (every comparison defined). -/
+theorem C10_match_total_general (x lead : Str) (t : GTerm) (ls : List Link) (trail : Str)
+    (hlead : isWs lead) (ht : t.Wf) (hls : ∀ l ∈ ls, l.Wf) (htr : isWs trail)
+    (hcmp : ∀ y ∈ t :: ls.map Link.term, ∃ r, stdCompare true x y.name = .ok r) :
+    ∃ b, versionMatch x (renderG lead t ls trail) = .ok b :=
+  ⟨_, versionMatch_renderG (stdCompare true) x lead t ls trail hlead ht hls htr hcmp⟩
+
+/-! ## malformed requests: what follows a chain of alternatives -/
+
+theorem any_holds_iff (x : Str) (t : GTerm) (os : List Link) (ht : t.Wf) (hls : ∀ l ∈ os, l.Wf) :
+    (termHolds (stdCompare true) x t.term || os.any (fun l => termHolds (stdCompare true) x l.term.term)) = true ↔
+      ∃ y ∈ t :: os.map Link.term, Holds x y := by
+  simp only [Bool.or_eq_true, List.any_eq_true, List.mem_cons, List.mem_map, exists_eq_or_imp]
+  rw [holds_iff x t ht]
+  constructor
+  · rintro (h | ⟨l, hl, h⟩)
+    · exact Or.inl h
+    · exact Or.inr ⟨l.term, ⟨l, hl, rfl⟩, (holds_iff x l.term (hls l hl).2.2.1).mp h⟩
+  · rintro (h | ⟨y, ⟨l, hl, rfl⟩, h⟩)
+    · exact Or.inl h
+    · exact Or.inr ⟨l, hl, (holds_iff x l.term (hls l hl).2.2.1).mpr h⟩
+
+/-- **A relational operator with nothing after it** (`>= 1.2 || <`): the request matches if there are at least
+two terms and one of them holds (the loop returns before it reaches the operator); otherwise `IndexError`. -/
+theorem C10_match_dangling_operator (x lead : Str) (t : GTerm) (os : List Link) (trail op trail2 : Str)
+    (hlead : isWs lead) (ht : t.Wf) (hls : ∀ l ∈ os, l.Wf) (htr : isWs trail) (hop : isRelop op) (htr2 : isWs trail2)
+    (hor : ∀ l ∈ os, l.isOr) (hcmp : ∀ y ∈ t :: os.map Link.term, ∃ r, stdCompare true x y.name = .ok r) :
+    ((os ≠ [] ∧ ∃ y ∈ t :: os.map Link.term, Holds x y) →
+        versionMatch x (renderG lead t os (trail ++ (op ++ trail2))) = .ok true) ∧
+    (¬ (os ≠ [] ∧ ∃ y ∈ t :: os.map Link.term, Holds x y) →
+        versionMatch x (renderG lead t os (trail ++ (op ++ trail2))) = .error .indexError) := by
+  have htok := tokenize_renderG_tail lead t os (trail ++ (op ++ trail2)) [op] hlead ht hls
+    (fun v hv => tokGo_dangling trail op trail2 htr hop htr2 v hv)
+  obtain ⟨r, hr⟩ := hcmp t (by simp)
+  have hval : versionMatch x (renderG lead t os (trail ++ (op ++ trail2))) =
+      if os = [] then .error .indexError
+      else if (termHolds (stdCompare true) x t.term || os.any (fun l => termHolds (stdCompare true) x l.term.term)) then .ok true
+      else .error .indexError := by
+    simp only [versionMatch, htok]
+    rw [matchLoop_term (stdCompare true) x t ht _ r hr none none (by simp)]
+    simp only
+    rw [matchLoop_linksK (stdCompare true) x os [op]
+      (fun l hl => ⟨(hls l hl).2.2.1, hcmp l.term (by simp only [List.mem_cons, List.mem_map]; exact Or.inr ⟨l, hl, rfl⟩)⟩),
+      evalLinksK_or _ _ _ _ os hor]
+    simp only [matchLoop_dangling (stdCompare true) x op hop]
+  rw [hval]
+  constructor
+  · rintro ⟨hne, hex⟩
+    simp [hne, (any_holds_iff x t os ht hls).mpr hex]
+  · intro hn
+    by_cases hne : os = []
+    · simp [hne]
+    · have : ¬ ((termHolds (stdCompare true) x t.term || os.any (fun l => termHolds (stdCompare true) x l.term.term)) = true) :=
+        fun h => hn ⟨hne, (any_holds_iff x t os ht hls).mp h⟩
+      simp [hne, this]
+
+/-- **A token that is neither a term nor an operator** (`(`, `1.0|2`, `a&&b` …; "Unexpected operator"): the loop
+stops there; the request is the chain of alternatives before it, whatever text follows. -/
+theorem C10_match_unexpected_token (x lead : Str) (t : GTerm) (os : List Link) (w1 junk w2 more : Str)
+    (hlead : isWs lead) (ht : t.Wf) (hls : ∀ l ∈ os, l.Wf) (hor : ∀ l ∈ os, l.isOr)
+    (hw1 : isWs w1) (hne1 : w1 ≠ []) (hw2 : isWs w2) (hne2 : w2 ≠ [])
+    (hj : ∀ c ∈ junk, wordChar c) (hjne : junk ≠ []) (hjp : plainTok junk = false) (hja : junk ≠ sAmpAmp)
+    (hcmp : ∀ y ∈ t :: os.map Link.term, ∃ r, stdCompare true x y.name = .ok r) :
+    ∃ b, versionMatch x (renderG lead t os (w1 ++ (junk ++ (w2 ++ more)))) = .ok b ∧
+      (b = true ↔ ∃ y ∈ t :: os.map Link.term, Holds x y) := by
+  have htok := tokenize_renderG_tail lead t os (w1 ++ (junk ++ (w2 ++ more))) (junk :: tokenize more) hlead ht hls
+    (fun v hv => tokGo_junk w1 junk w2 more hw1 hne1 hj hjne hw2 hne2 v hv)
+  obtain ⟨r, hr⟩ := hcmp t (by simp)
+  have hrel : hasRelop junk = false := hasRelop_none junk (fun c hc => by obtain ⟨_, a, b, c', _⟩ := hj c hc; exact ⟨a, b, c'⟩)
+  have hbb : junk ≠ sBarBar := by
+    intro e; subst e
+    have := (hj 124 (by simp [sBarBar])).2.2.2.2
+    exact this rfl
+  refine ⟨termHolds (stdCompare true) x t.term || os.any (fun l => termHolds (stdCompare true) x l.term.term), ?_,
+    any_holds_iff x t os ht hls⟩
+  simp only [versionMatch, htok]
+  rw [matchLoop_term (stdCompare true) x t ht _ r hr none none (by simp)]
+  simp only
+  rw [matchLoop_linksK (stdCompare true) x os _
+    (fun l hl => ⟨(hls l hl).2.2.1, hcmp l.term (by simp only [List.mem_cons, List.mem_map]; exact Or.inr ⟨l, hl, rfl⟩)⟩),
+    evalLinksK_or _ _ _ _ os hor]
+  simp only [matchLoop_junk (stdCompare true) x junk _ hrel hjp hbb hja]
+  by_cases hne : os = []
+  · subst hne; simp
+  · by_cases hany : (termHolds (stdCompare true) x t.term || os.any (fun l => termHolds (stdCompare true) x l.term.term)) = true
+    · simp [hne, hany]
+    · simp only [Bool.not_eq_true] at hany
+      simp [hne, hany]
+
+/-- **A second term where a logical operator is expected** (`>= 1.2 < 2`; "Expected logical operator"): it is
+passed over without being compared; the request is its first term. -/
+theorem C10_match_missing_operator (x lead : Str) (t t2 : GTerm) (w1 trail : Str)
+    (hlead : isWs lead) (ht : t.Wf) (ht2 : t2.Wf) (hw1 : isWs w1) (hne1 : w1 ≠ []) (htr : isWs trail)
+    (hcmp : ∃ r, stdCompare true x t.name = .ok r) :
+    ∃ b, versionMatch x (renderG lead t [] (w1 ++ (t2.render ++ trail))) = .ok b ∧ (b = true ↔ Holds x t) := by
+  have htok := tokenize_renderG_tail lead t [] (w1 ++ (t2.render ++ trail)) (t2.opToks ++ [t2.name]) hlead ht (by simp)
+    (fun v hv => tokGo_juxt w1 t2 trail hw1 hne1 ht2 htr v hv)
+  obtain ⟨r, hr⟩ := hcmp
+  refine ⟨termHolds (stdCompare true) x t.term, ?_, holds_iff x t ht⟩
+  simp only [versionMatch, htok, linkToks, List.nil_append]
+  rw [matchLoop_term (stdCompare true) x t ht _ r hr none none (by simp)]
+  simp only
+  rw [matchLoop_term_skip (stdCompare true) x t2 ht2 [] _]
+  cases termHolds (stdCompare true) x t.term <;> simp [matchLoop]
+
+example : versionMatch n_1d9 [62, 61, 32, 49, 46, 50, 32, 60] = .error .indexError := by decide         -- `>= 1.2 <`
+example : versionMatch n_1d9 [62, 61, 32, 49, 46, 50, 32, 40, 32, 60] = .ok true := by decide           -- `>= 1.2 ( <`
+example : versionMatch n_1d9 [62, 61, 32, 49, 46, 50, 32, 60, 32, 49] = .ok true := by decide           -- `>= 1.2 < 1`
+
+/-! ## which version arguments are requests (`Eups.isLegalRelativeVersion`) -/
+
+/-- A chain with an explicit operator in any of its terms is taken as a relational request … -/
+theorem C10_legal_relational (lead : Str) (t : GTerm) (ls : List Link) (trail : Str)
+    (y : GTerm) (hy : y ∈ t :: ls.map Link.term) (o : Str) (ho : y.op = some o) (hr : isRelop o) :
+    isLegalRelativeVersion (renderG lead t ls trail) = .relational := legal_renderG lead t ls trail y hy o ho hr
+
+/-- … a well-formed name is a plain version … -/
+theorem C10_legal_name_plain (v : Str) (hv : wfName v) : isLegalRelativeVersion v = .plain := legal_name v hv
+
+/-- … and `= version` (a single `=` followed by a blank) is refused with "did you mean '=='?". -/
+theorem C10_legal_single_equals (lead gap v : Str) (hl : isWs lead) (hg : isWs gap) (hgne : gap ≠ []) (hv : wfName v) :
+    isLegalRelativeVersion (lead ++ 61 :: (gap ++ v)) = .badSyntax := legal_single_equals lead gap v hl hg hgne hv
+
+/-! non-vacuity and instances -/
+def t_ge (v : Str) : GTerm := ⟨some opGe, [32], v⟩
+def t_lt (v : Str) : GTerm := ⟨some opLt, [], v⟩
+def t_bare (v : Str) : GTerm := ⟨none, [], v⟩
+#guard Str.toString (renderG [32] (t_ge n_1d9) [⟨[], .barbar, [], t_lt n_1d2⟩, ⟨[32], .orW, [9], t_bare n_1d10⟩] [32]) == " >= 1.9||<1.2 or\t1.10 "
+example : versionMatch n_1d10 (renderG [32] (t_lt n_1d9) [⟨[], .barbar, [], t_lt n_1d2⟩, ⟨[32], .orW, [9], t_bare n_1d10⟩] [32]) = .ok true := by decide
+example : versionMatch n_1d9 (renderG [32] (t_lt n_1d9) [⟨[], .barbar, [], t_lt n_1d2⟩, ⟨[32], .orW, [9], t_bare n_1d10⟩] [32]) = .ok false := by decide
+example : (t_ge n_1d9).Wf :=
+  ⟨⟨by decide, by decide⟩, by intro c hc; simp [t_ge] at hc; subst hc; decide,
+    by intro o h; cases h; exact Or.inr (Or.inr (Or.inr (Or.inl rfl))), by intro h; cases h⟩
+example : (t_bare n_1d10).Wf :=
+  ⟨⟨by decide, by decide⟩, (by intro c hc; simp [t_bare] at hc), (by intro o h; simp [t_bare] at h), fun _ => by decide⟩
+example : isLegalRelativeVersion [49, 46, 50, 32, 124, 124, 32, 49, 46, 51] = .plain := by decide   -- `1.2 || 1.3`: no operator, a plain version name
+example : isLegalRelativeVersion [61, 49, 46, 48] = .plain := by decide                             -- `=1.0`
+
+/-- `&&` and `||` together have neither the usual precedence nor left-to-right evaluation (`&&` is documented as
+"not supported"): `1.10` matches `< 1.2 || >= 1.9 && < 1.9` (the `&&` after the `||` is never reached), and `1.2`
+does not match `>= 1.9 && < 1.10 || == 1.2` (a false first conjunct ends the evaluation). -/
+theorem C10_mixed_logop_witness :
+    versionMatch n_1d10 (renderG [] (t_lt n_1d2) [⟨[32], .barbar, [32], t_ge n_1d9⟩, ⟨[32], .ampamp, [32], t_lt n_1d9⟩] []) = .ok true ∧
+    stdCompare true n_1d10 n_1d9 = .ok 1 ∧
+    versionMatch n_1d2 (renderG [] (t_ge n_1d9) [⟨[32], .ampamp, [32], t_lt n_1d10⟩, ⟨[32], .barbar, [32], t_bare n_1d2⟩] []) = .ok false ∧
+    stdCompare true n_1d2 n_1d2 = .ok 0 := by decide
+
 /-! ## latest -/
 
 /-- **`latest` is the maximum**: from a non-empty list of conventional names the selection returns a
@@ -383,6 +713,464 @@ theorem C10_latest_db_is_max (stacks : List (List Str))
   obtain ⟨i, v, h1, h2, h3⟩ := C10_latest_across_is_max (stacks.map dbOrder) hconv' hne'
   exact ⟨i, v, h1, (mem_flatten_dbOrder v stacks).mp h2, fun w hw => h3 w ((mem_flatten_dbOrder w stacks).mpr hw)⟩
 
+/-! ## latest: the sort, the minimum version -/
+
+/-- **`vers.sort(key=cmp_to_key(version_cmp)); vers[-1]`** (Eups.py, `_selectPreferredProduct` and the cache
+branch of `_findLatestProduct`): whatever list `s` the sort returns — a permutation of the names, ordered by
+the comparator, names that compare equal in their original relative order (stability) — its last element is
+the name the model's one-pass selection returns.  Together with `C10_latest_is_max`: the last element of the
+sorted list is a maximum, for every list of conventional names. -/
+theorem C10_latest_is_last_of_sort (names s : List Str) (hne : names ≠ []) (hconv : ∀ v ∈ names, convName v = true)
+    (hperm : s.Perm names)
+    (hsorted : s.Pairwise (fun a b => ∃ r, stdCompare false a b = .ok r ∧ r ≤ 0))
+    (hstable : ∀ m ∈ names, s.filter (fun y => decide (stdCompare false y m = .ok 0)) =
+      names.filter (fun y => decide (stdCompare false y m = .ok 0))) :
+    ∃ i v, latest names = .ok (some i) ∧ s.getLast? = some v ∧ names[i]? = some v ∧ ∀ j, j < i → names[j]? ≠ some v := by
+  obtain ⟨ps, hps, hc⟩ := lexPairs_of_conv hconv
+  obtain ⟨hmap, hlex⟩ := lexPairs_spec hps
+  have hpne : ps ≠ [] := by
+    intro e; subst e; simp at hmap; exact hne hmap
+  obtain ⟨m, hm, hmem, hmax⟩ := lastMax_none_spec ps hpne hc
+  have hv : m.1 ∈ names := by rw [← hmap]; exact List.mem_map_of_mem hmem
+  obtain ⟨hget, hfirst⟩ := findIdx_beq_spec names m.1 hv
+  have hacc : ∀ v ∈ names, ∃ l, lex v = .ok l := fun v h => convName_accepted (hconv v h)
+  have hps' := lexPairs_eq_map hps
+  have hm2 : m.2 = lexOr m.1 := by
+    rw [hps'] at hmem
+    obtain ⟨v, _, rfl⟩ := List.mem_map.mp hmem
+    rfl
+  have hlast : (s.map (fun v => (v, lexOr v))).getLast? = some m := by
+    apply getLast_stableSort ps _ m hm hc
+    · rw [hps']; exact hperm.map _
+    · rw [List.pairwise_map]
+      refine hsorted.imp_of_mem ?_
+      intro a b ha hb ⟨r, hr, hle⟩
+      rw [stdCompare_lexOr (hacc a (hperm.subset ha)) (hacc b (hperm.subset hb))] at hr
+      cases hr; exact hle
+    · rw [hps', List.filter_map, List.filter_map, hm2]
+      have hfil : ∀ l : List Str, (∀ y ∈ l, y ∈ names) →
+          l.filter ((fun y : Str × Lexed => cmpSort y.2 (lexOr m.1) == 0) ∘ fun v => (v, lexOr v)) =
+          l.filter (fun y => decide (stdCompare false y m.1 = .ok 0)) := by
+        intro l hl
+        apply List.filter_congr
+        intro y hy
+        rw [stdCompare_lexOr (hacc y (hl y hy)) (hacc m.1 hv)]
+        simp only [Function.comp, Except.ok.injEq]
+        by_cases hz : cmpSort (lexOr y) (lexOr m.1) = 0 <;> simp [hz]
+      rw [hfil s (fun y hy => hperm.subset hy), hfil names (fun y hy => hy), hstable m.1 hv]
+  rw [List.getLast?_map] at hlast
+  cases hs : s.getLast? with
+  | none => simp [hs] at hlast
+  | some v =>
+    simp only [hs, Option.map_some, Option.some.injEq] at hlast
+    have : v = m.1 := by rw [← hlast]
+    subst this
+    exact ⟨names.findIdx (· == m.1), m.1, by simp only [latest, hps, hm], rfl, hget, hfirst⟩
+
+/-- **`_findLatestProduct(…, minver)`**: from stacks of conventional versions and a conventional minimum,
+nothing is returned exactly when every declared version is below the minimum; otherwise the version
+returned is declared, reaches the minimum, and no declared version exceeds it. -/
+theorem C10_latest_minver (stacks : List (List Str)) (mv : Str)
+    (hconv : ∀ st ∈ stacks, ∀ v ∈ st, convName v = true) (hmv : convName mv = true) :
+    (latestAcrossMin (some mv) stacks = .ok none ∧
+        ∀ w ∈ stacks.flatten, ∃ r, stdCompare false w mv = .ok r ∧ r < 0) ∨
+    (∃ i v, latestAcrossMin (some mv) stacks = .ok (some (i, v)) ∧ v ∈ stacks.flatten ∧
+        (∃ r, stdCompare false v mv = .ok r ∧ r ≥ 0) ∧
+        ∀ w ∈ stacks.flatten, ∃ r, stdCompare false w v = .ok r ∧ r ≤ 0) := by
+  obtain ⟨lm, hlm, hcm⟩ := convName_lex hmv
+  obtain ⟨out, hgo, hinv⟩ := latestAcrossGo_spec_min (some mv) (some lm) hlm
+    (by intro l hl; cases hl; exact hcm) stacks 0 none [] hconv (by simp [AcrossInvMin])
+  simp only [List.nil_append] at hinv
+  cases out with
+  | none =>
+    refine Or.inl ⟨by simp only [latestAcrossMin, hgo], ?_⟩
+    intro w hw
+    obtain ⟨lw, h1, _, h3⟩ := hinv w hw
+    exact ⟨cmpSort lw lm, by simp [stdCompare, h1, hlm, cmpLexed], h3⟩
+  | some o =>
+    obtain ⟨i, v, lv⟩ := o
+    obtain ⟨hv, _, hmem, hnb, hall⟩ := hinv
+    refine Or.inr ⟨i, v, by simp only [latestAcrossMin, hgo], hmem, ?_, ?_⟩
+    · refine ⟨cmpSort lv lm, by simp [stdCompare, hv, hlm, cmpLexed], ?_⟩
+      simp only [BelowMin] at hnb; omega
+    · intro w hw
+      obtain ⟨lw, h1, _, h3⟩ := hall w hw
+      exact ⟨cmpSort lw lv, by simp [stdCompare, h1, hv, cmpLexed], h3⟩
+
+/-- … the same through the database branch (every stack enumerated in string order). -/
+theorem C10_latest_minver_db (stacks : List (List Str)) (mv : Str)
+    (hconv : ∀ st ∈ stacks, ∀ v ∈ st, convName v = true) (hmv : convName mv = true) :
+    (latestAcrossMin (some mv) (stacks.map dbOrder) = .ok none ∧
+        ∀ w ∈ stacks.flatten, ∃ r, stdCompare false w mv = .ok r ∧ r < 0) ∨
+    (∃ i v, latestAcrossMin (some mv) (stacks.map dbOrder) = .ok (some (i, v)) ∧ v ∈ stacks.flatten ∧
+        (∃ r, stdCompare false v mv = .ok r ∧ r ≥ 0) ∧
+        ∀ w ∈ stacks.flatten, ∃ r, stdCompare false w v = .ok r ∧ r ≤ 0) := by
+  have hconv' : ∀ st ∈ stacks.map dbOrder, ∀ v ∈ st, convName v = true := by
+    intro st hst v hv
+    obtain ⟨st0, h0, rfl⟩ := List.mem_map.mp hst
+    exact hconv st0 h0 v ((mem_dbOrder v st0).mp hv)
+  rcases C10_latest_minver (stacks.map dbOrder) mv hconv' hmv with ⟨h1, h2⟩ | ⟨i, v, h1, h2, h3, h4⟩
+  · exact Or.inl ⟨h1, fun w hw => h2 w ((mem_flatten_dbOrder w stacks).mpr hw)⟩
+  · exact Or.inr ⟨i, v, h1, (mem_flatten_dbOrder v stacks).mp h2, h3,
+      fun w hw => h4 w ((mem_flatten_dbOrder w stacks).mpr hw)⟩
+
+/-! ## relational requests through the stacks -/
+
+/-- **`_findProductsByExpr`**: when the request can be evaluated against every declared version, the
+products returned are exactly the declared versions that match it; a version string is reported once, from
+the first stack (in path order) that declares it. -/
+theorem C10_matches_across (expr : Str) (stacks : List (List Str))
+    (hok : ∀ st ∈ stacks, ∀ v ∈ st, ∃ b, versionMatch v expr = .ok b) :
+    ∃ ms, matchesAcross expr stacks = .ok ms ∧ (ms.map Prod.snd).Nodup ∧
+      (∀ v, v ∈ ms.map Prod.snd ↔ v ∈ stacks.flatten ∧ versionMatch v expr = .ok true) ∧
+      ∀ p ∈ ms, ∃ st, stacks[p.1]? = some st ∧ p.2 ∈ st ∧ ∀ j st', j < p.1 → stacks[j]? = some st' → p.2 ∉ st' := by
+  obtain ⟨ms, hgo, h1, h2, h3⟩ := matchesAcrossGo_spec expr stacks [] [] hok (by simp [MatchInv])
+  simp only [List.nil_append, List.length_nil] at hgo h1 h2
+  refine ⟨ms, hgo, h3, ?_, ?_⟩
+  · intro v
+    constructor
+    · intro hv
+      obtain ⟨p, hp, rfl⟩ := List.mem_map.mp hv
+      obtain ⟨hm, st, hst, hmem, _⟩ := h1 p hp
+      exact ⟨List.mem_flatten.mpr ⟨st, List.mem_of_getElem? hst, hmem⟩, hm⟩
+    · rintro ⟨hv, hm⟩
+      obtain ⟨st, hst, hvst⟩ := List.mem_flatten.mp hv
+      exact h2 st hst v hvst hm
+  · intro p hp
+    exact (h1 p hp).2
+
+/-- On an `||` chain whose comparisons are defined for every declared version: the versions returned are
+exactly those the order puts in one of the stated relations. -/
+theorem C10_matches_across_iff (t : Term) (ts : List Term) (stacks : List (List Str))
+    (hwf : ∀ y ∈ t :: ts, WfTerm y)
+    (hcmp : ∀ st ∈ stacks, ∀ v ∈ st, ∀ y ∈ t :: ts, ∃ r, stdCompare true v y.2 = .ok r) :
+    ∃ ms, matchesAcross (render t ts) stacks = .ok ms ∧
+      ∀ v, v ∈ ms.map Prod.snd ↔ v ∈ stacks.flatten ∧ ∃ y ∈ t :: ts, ∃ r, stdCompare true v y.2 = .ok r ∧ relSem y.1 r := by
+  obtain ⟨ms, h1, _, h3, _⟩ := C10_matches_across (render t ts) stacks
+    (fun st hst v hv => C10_match_total v t ts hwf (hcmp st hst v hv))
+  refine ⟨ms, h1, ?_⟩
+  intro v
+  rw [h3 v]
+  constructor
+  · rintro ⟨hv, hm⟩
+    obtain ⟨st, hst, hvst⟩ := List.mem_flatten.mp hv
+    exact ⟨hv, (C10_match_iff v t ts hwf (hcmp st hst v hvst)).mp hm⟩
+  · rintro ⟨hv, hm⟩
+    obtain ⟨st, hst, hvst⟩ := List.mem_flatten.mp hv
+    exact ⟨hv, (C10_match_iff v t ts hwf (hcmp st hst v hvst)).mpr hm⟩
+
+/-- **The latest of the matching versions** (`setup prod "expr"`: `_findPreferredProductByExpr` / the VRO entry
+`versionExpr`): nothing when no declared version matches; otherwise a declared version that matches and that no
+matching declared version exceeds. -/
+theorem C10_preferred_by_expr_is_max (expr : Str) (stacks : List (List Str))
+    (hconv : ∀ st ∈ stacks, ∀ v ∈ st, convName v = true)
+    (hok : ∀ st ∈ stacks, ∀ v ∈ st, ∃ b, versionMatch v expr = .ok b) :
+    (preferredByExpr expr stacks = .ok none ∧ ∀ w ∈ stacks.flatten, versionMatch w expr ≠ .ok true) ∨
+    (∃ i v, preferredByExpr expr stacks = .ok (some (i, v)) ∧ v ∈ stacks.flatten ∧ versionMatch v expr = .ok true ∧
+      ∀ w ∈ stacks.flatten, versionMatch w expr = .ok true → ∃ r, stdCompare false w v = .ok r ∧ r ≤ 0) := by
+  obtain ⟨ms, hms, _, hiff, _⟩ := C10_matches_across expr stacks hok
+  by_cases hne : ms.map Prod.snd = []
+  · left
+    refine ⟨by simp [preferredByExpr, hms, hne, latest, lexPairs, lastMax], ?_⟩
+    intro w hw hm
+    have : w ∈ ms.map Prod.snd := (hiff w).mpr ⟨hw, hm⟩
+    rw [hne] at this; simp at this
+  · right
+    have hc : ∀ v ∈ ms.map Prod.snd, convName v = true := by
+      intro v hv
+      obtain ⟨st, hst, hvst⟩ := List.mem_flatten.mp ((hiff v).mp hv).1
+      exact hconv st hst v hvst
+    obtain ⟨i, v, hl, hget, _, hmax⟩ := C10_latest_is_max (ms.map Prod.snd) hne hc
+    rw [List.getElem?_map] at hget
+    cases hp : ms[i]? with
+    | none => simp [hp] at hget
+    | some p =>
+      simp only [hp, Option.map_some, Option.some.injEq] at hget
+      have hvm : v ∈ ms.map Prod.snd := by
+        rw [← hget]; exact List.mem_map_of_mem (List.mem_of_getElem? hp)
+      obtain ⟨hvf, hvmatch⟩ := (hiff v).mp hvm
+      refine ⟨p.1, v, ?_, hvf, hvmatch, fun w hw hm => hmax w ((hiff w).mpr ⟨hw, hm⟩)⟩
+      simp only [preferredByExpr, hms, hl, hp]
+      rw [← hget]
+
+/-! non-vacuity -/
+example : latestAcrossMin (some n_1d10) [[n_1d9, n_1d2], [n_1d2d0]] = .ok none := by decide
+example : latestAcrossMin (some n_1d9) [[n_1d9, n_1d2], [n_1d10, n_1d2d0]] = .ok (some (1, n_1d10)) := by decide
+example : matchesAcross (render (opGe, n_1d9) []) [[n_1d9, n_1d2], [n_1d10, n_1d9]] = .ok [(0, n_1d9), (1, n_1d10)] := by decide
+example : [n_1d2, n_1d9, n_1d10].Perm [n_1d9, n_1d10, n_1d2] := by decide
+
+/-! ## the listing entry point: `Eups.findProducts(name, version, tags)` — `eups list prod "expr" -t tag` -/
+
+/-- **Every product listed satisfies the request**, whatever tags are asked for and whichever versions carry
+them (the products the tag loop appends are filtered like all others), and no version is listed twice. -/
+theorem C10_list_satisfies_request (verArg : Str) (tags : List Str) (stacks : List (List Decl)) (l : List (Nat × Str))
+    (hne : verArg ≠ []) (h : listProducts verArg tags stacks = .ok (.products l)) :
+    (∀ p ∈ l, verOk verArg p.2 = .ok (some true)) ∧ (l.map Prod.snd).Nodup := by
+  simp only [listProducts] at h
+  cases hs : listStacks verArg tags stacks 0 stacks [] with
+  | error e => simp [hs] at h
+  | ok oo =>
+    cases oo with
+    | none => simp [hs] at h
+    | some out =>
+      have hemp : verArg.isEmpty = false := by cases verArg <;> simp_all
+      simp only [hs, hemp, Bool.false_eq_true, if_false] at h
+      split at h
+      · simp at h
+      · cases hf : finalFilter verArg out with
+        | error e => simp [hf] at h
+        | ok ol =>
+          cases ol with
+          | none => simp [hf] at h
+          | some l' =>
+            simp only [hf, Except.ok.injEq, ListOut.products.injEq] at h
+            subst h
+            exact ⟨fun p hp => ((finalFilter_spec verArg out l' hf p).mp (mem_uniqVers hp)).2, (uniqVers_nodup l' []).1⟩
+
+/-- … and every product listed is a version declared in the stack it is reported from (whatever the tags and the
+version argument): together with `C10_list_satisfies_request`, the listing shows declared versions that satisfy the
+request and nothing else. -/
+theorem C10_list_declared (verArg : Str) (tags : List Str) (stacks : List (List Decl)) (l : List (Nat × Str))
+    (h : listProducts verArg tags stacks = .ok (.products l)) : ∀ p ∈ l, Declared stacks p := by
+  simp only [listProducts] at h
+  cases hs : listStacks verArg tags stacks 0 stacks [] with
+  | error e => simp [hs] at h
+  | ok oo =>
+    cases oo with
+    | none => simp [hs] at h
+    | some out =>
+      have hout := listStacks_declared verArg tags stacks stacks 0 [] out (by simp) (by simp) hs
+      simp only [hs] at h
+      split at h
+      · simp only [Except.ok.injEq, ListOut.products.injEq] at h
+        subst h
+        exact fun p hp => hout p (mem_uniqVers hp)
+      · split at h
+        · simp at h
+        · cases hf : finalFilter verArg out with
+          | error e => simp [hf] at h
+          | ok ol =>
+            cases ol with
+            | none => simp [hf] at h
+            | some l' =>
+              simp only [hf, Except.ok.injEq, ListOut.products.injEq] at h
+              subst h
+              exact fun p hp => hout p ((finalFilter_spec verArg out l' hf p).mp (mem_uniqVers hp)).1
+
+/-- For a relational request: every version listed is accepted by `version_match` … -/
+theorem C10_list_relational (verArg : Str) (tags : List Str) (stacks : List (List Decl)) (l : List (Nat × Str))
+    (hrel : isLegalRelativeVersion verArg = .relational) (h : listProducts verArg tags stacks = .ok (.products l)) :
+    ∀ p ∈ l, versionMatch p.2 verArg = .ok true := by
+  have hne : verArg ≠ [] := by intro e; subst e; simp [isLegalRelativeVersion, hasRelop, badRelop] at hrel
+  intro p hp
+  have := (C10_list_satisfies_request verArg tags stacks l hne h).1 p hp
+  simp only [verOk, hrel] at this
+  cases hm : versionMatch p.2 verArg with
+  | error e => simp [hm] at this
+  | ok b => simp only [hm, Except.ok.injEq, Option.some.injEq] at this; rw [this]
+
+/-- … hence, for a chain of alternatives (any spacing and spelling, an explicit operator somewhere), in one of the
+stated relations of the order. -/
+theorem C10_list_accepts_only_the_relation (lead : Str) (t : GTerm) (os : List Link) (trail : Str)
+    (tags : List Str) (stacks : List (List Decl)) (l : List (Nat × Str))
+    (hlead : isWs lead) (ht : t.Wf) (hls : ∀ k ∈ os, k.Wf) (htr : isWs trail) (hor : ∀ k ∈ os, k.isOr)
+    (y0 : GTerm) (hy0 : y0 ∈ t :: os.map Link.term) (o : Str) (ho : y0.op = some o) (hr : isRelop o)
+    (h : listProducts (renderG lead t os trail) tags stacks = .ok (.products l))
+    (hcmp : ∀ p ∈ l, ∀ y ∈ t :: os.map Link.term, ∃ r, stdCompare true p.2 y.name = .ok r) :
+    ∀ p ∈ l, ∃ y ∈ t :: os.map Link.term, Holds p.2 y := by
+  intro p hp
+  have hm := C10_list_relational _ tags stacks l (C10_legal_relational lead t os trail y0 hy0 o ho hr) h p hp
+  exact (C10_match_iff_general p.2 lead t os trail hlead ht hls htr hor (hcmp p hp)).mp hm
+
+theorem mem_map_uniqVers (l : List (Nat × Str)) (v : Str) : v ∈ (uniqVers l []).map Prod.snd ↔ v ∈ l.map Prod.snd := by
+  constructor
+  · intro h
+    obtain ⟨p, hp, rfl⟩ := List.mem_map.mp h
+    exact List.mem_map_of_mem (mem_uniqVers hp)
+  · intro h; exact uniqVers_complete h (by simp)
+
+/-- **No tag asked for: the listing is exactly the declared versions that pass the version argument**
+(a relational request: that `version_match` accepts; a pattern: that it matches; none: all), each version once. -/
+theorem C10_list_exact (verArg : Str) (stacks : List (List Decl)) (l : List (Nat × Str))
+    (h : listProducts verArg [] stacks = .ok (.products l)) :
+    (∀ v, v ∈ l.map Prod.snd ↔ (∃ st ∈ stacks, ∃ d ∈ st, d.ver = v) ∧ Passes verArg v) ∧ (l.map Prod.snd).Nodup := by
+  simp only [listProducts] at h
+  cases hs : listStacks verArg [] stacks 0 stacks [] with
+  | error e => simp [hs] at h
+  | ok oo =>
+    cases oo with
+    | none => simp [hs] at h
+    | some out =>
+      have hout := listStacks_notags verArg stacks stacks 0 [] out hs
+      simp only [List.map_nil, List.not_mem_nil, false_or] at hout
+      simp only [hs] at h
+      by_cases he : verArg = []
+      · subst he
+        simp only [List.isEmpty_nil, if_true, Except.ok.injEq, ListOut.products.injEq] at h
+        subst h
+        exact ⟨fun v => by rw [mem_map_uniqVers, hout v], (uniqVers_nodup out []).1⟩
+      · have hemp : verArg.isEmpty = false := by cases verArg <;> simp_all
+        simp only [hemp, Bool.false_eq_true, if_false] at h
+        split at h
+        · simp at h
+        · cases hf : finalFilter verArg out with
+          | error e => simp [hf] at h
+          | ok ol =>
+            cases ol with
+            | none => simp [hf] at h
+            | some l' =>
+              simp only [hf, Except.ok.injEq, ListOut.products.injEq] at h
+              subst h
+              refine ⟨fun v => ?_, (uniqVers_nodup l' []).1⟩
+              rw [mem_map_uniqVers]
+              have hff := finalFilter_spec verArg out l' hf
+              constructor
+              · intro hv
+                obtain ⟨p, hp, rfl⟩ := List.mem_map.mp hv
+                obtain ⟨h1, h2⟩ := (hff p).mp hp
+                exact (hout p.2).mp (List.mem_map_of_mem h1)
+              · intro hv
+                obtain ⟨p, hp, rfl⟩ := List.mem_map.mp ((hout v).mpr hv)
+                have hpass : verOk verArg p.2 = .ok (some true) := by
+                  rcases hv.2 with h | h
+                  · exact absurd h he
+                  · exact h
+                exact List.mem_map_of_mem ((hff p).mpr ⟨hp, hpass⟩)
+
+/-- **With tags: nothing that qualifies is left out** — a declared version that carries one of the requested tags in
+its stack and passes the version argument is listed (versions are declared once per stack). -/
+theorem C10_list_tagged_complete (verArg : Str) (tags : List Str) (stacks : List (List Decl)) (l : List (Nat × Str))
+    (h : listProducts verArg tags stacks = .ok (.products l)) (htags : tags ≠ [])
+    (i : Nat) (st : List Decl) (hget : stacks[i]? = some st) (d : Decl) (hd : d ∈ st)
+    (huniq : ∀ d' ∈ st, d'.ver = d.ver → d' = d) (hpass : Passes verArg d.ver) (hcar : d.tags.any tags.contains = true) :
+    d.ver ∈ l.map Prod.snd := by
+  simp only [listProducts] at h
+  cases hs : listStacks verArg tags stacks 0 stacks [] with
+  | error e => simp [hs] at h
+  | ok oo =>
+    cases oo with
+    | none => simp [hs] at h
+    | some out =>
+      have hin : (i, d.ver) ∈ out := by
+        have := (listStacks_tagged verArg tags stacks stacks 0 [] out hs).2 i st hget d hd huniq hpass htags hcar
+        simpa using this
+      simp only [hs] at h
+      split at h
+      · simp only [Except.ok.injEq, ListOut.products.injEq] at h
+        subst h
+        exact (mem_map_uniqVers out d.ver).mpr (List.mem_map_of_mem (f := Prod.snd) hin)
+      · rename_i hne
+        split at h
+        · simp at h
+        · cases hf : finalFilter verArg out with
+          | error e => simp [hf] at h
+          | ok ol =>
+            cases ol with
+            | none => simp [hf] at h
+            | some l' =>
+              simp only [hf, Except.ok.injEq, ListOut.products.injEq] at h
+              subst h
+              have hv : verOk verArg d.ver = .ok (some true) := by
+                rcases hpass with e | e
+                · subst e; simp at hne
+                · exact e
+              exact (mem_map_uniqVers l' d.ver).mpr
+                (List.mem_map_of_mem (f := Prod.snd) ((finalFilter_spec verArg out l' hf (i, d.ver)).mpr ⟨hin, hv⟩))
+
+
+
+/-! the integrator's seeded change (round 3): `eups list prod ">= 1.10" -t current` with `current` on `1.9` -/
+def s_current : Str := [99, 117, 114, 114, 101, 110, 116]
+#guard Str.toString s_current == "current"
+#guard Str.toString sLatest == "latest"
+example : listProducts (render (opGe, n_1d10) []) [s_current] [[⟨n_1d9, [s_current]⟩, ⟨n_1d10, []⟩, ⟨n_1d2, []⟩]] = .ok (.products []) := by decide
+example : listProducts (render (opGe, n_1d9) []) [s_current] [[⟨n_1d9, [s_current]⟩, ⟨n_1d10, []⟩, ⟨n_1d2, []⟩]] = .ok (.products [(0, n_1d9)]) := by decide
+example : listProducts (render (opGe, n_1d9) []) [] [[⟨n_1d10, []⟩, ⟨n_1d9, [s_current]⟩, ⟨n_1d2, []⟩]] = .ok (.products [(0, n_1d9), (0, n_1d10)]) := by decide
+example : listProducts (render (opGe, n_1d9) []) [sLatest] [[⟨n_1d10, []⟩, ⟨n_1d9, [s_current]⟩, ⟨n_1d2, []⟩]] = .ok (.products [(0, n_1d10)]) := by decide
+example : listProducts [49, 46, 42] [] [[⟨n_1d10, []⟩, ⟨n_2, []⟩, ⟨n_1d2, []⟩]] = .ok (.products [(0, n_1d2), (0, n_1d10)]) := by decide   -- `1.*`
+example : listProducts (render (opGe, n_1d9) []) [s_current] [[⟨n_1d2, []⟩], [⟨n_1d9, []⟩, ⟨n_1d10, [s_current]⟩]] = .ok (.products [(1, n_1d10)]) := by decide
+
+/-- **The sort of the listing model is a stable sort** of any list of conventional names — a permutation, ordered by
+the comparator, names that compare equal in their original relative order — and its last element is the one the
+`latest` selection finds (`C10_latest_is_last_of_sort` says the same of every stable sort): the two models of
+`vers.sort(...)` agree. -/
+theorem C10_sort_model_is_stable_sort (names : List Str) (ps : List (Str × Lexed)) (hps : lexPairs names = .ok ps)
+    (hconv : ∀ v ∈ names, convName v = true) :
+    (sortVers ps).Perm ps ∧ (sortVers ps).Pairwise (fun a b => cmpSort a.2 b.2 ≤ 0) ∧
+    (∀ m ∈ ps, (sortVers ps).filter (fun y => cmpSort y.2 m.2 == 0) = ps.filter (fun y => cmpSort y.2 m.2 == 0)) ∧
+    (sortVers ps).getLast? = lastMax none ps := by
+  obtain ⟨ps', hps', hc⟩ := lexPairs_of_conv hconv
+  rw [hps] at hps'; cases hps'
+  refine ⟨sortVers_perm ps, sortVers_sorted ps hc, fun m hm => sortVers_stable m ps (hc m hm) hc, ?_⟩
+  cases hl : lastMax none ps with
+  | none =>
+    cases ps with
+    | nil => simp [sortVers]
+    | cons a as => simp [lastMax] at hl; exact absurd hl (by
+        intro h; have := lastMax_spec [a] as a (by simpa using hc) (by simp) (by intro y hy; simp at hy; subst hy; rw [cmpSort_self]; exact Int.le_refl 0)
+        obtain ⟨m, hm, _⟩ := this; rw [h] at hm; cases hm)
+  | some m => exact sortVers_getLast ps m hl hc
+
+/-! ## a version argument at the other entry points -/
+
+/-- **`findProduct(name, expr)`** (`_findPreferredProductByExpr`): whatever tags the session prefers and whichever
+versions carry them, the product returned satisfies the request and is declared where it is reported. -/
+theorem C10_find_by_expr_satisfies_request (preferred : List Str) (expr : Str) (stacks : List (List Decl)) (p : Nat × Str)
+    (hok : ∀ st ∈ versOf stacks, ∀ v ∈ st, ∃ b, versionMatch v expr = .ok b)
+    (h : findProductExpr preferred expr stacks = .ok (some p)) :
+    versionMatch p.2 expr = .ok true ∧ ∃ st, (versOf stacks)[p.1]? = some st ∧ p.2 ∈ st := by
+  obtain ⟨ms, hms, _, hiff, hdecl⟩ := C10_matches_across expr (versOf stacks) hok
+  simp only [findProductExpr, hms] at h
+  have hp := selectPreferred_mem stacks ms preferred p h
+  obtain ⟨st, h1, h2, _⟩ := hdecl p hp
+  exact ⟨((hiff p.2).mp (List.mem_map_of_mem hp)).2, st, h1, h2⟩
+
+/-- **`setup prod arg`, `arg` a relational request** (`findProductFromVRO`, entries `version` then `versionExpr`):
+nothing when no declared version satisfies it, otherwise a declared version that satisfies it and that no declared
+version satisfying it exceeds. -/
+theorem C10_entry_relational (arg : Str) (stacks : List (List Decl))
+    (hrel : isLegalRelativeVersion arg = .relational)
+    (hconv : ∀ st ∈ versOf stacks, ∀ v ∈ st, convName v = true)
+    (hok : ∀ st ∈ versOf stacks, ∀ v ∈ st, ∃ b, versionMatch v arg = .ok b)
+    (hlit : ∀ st ∈ stacks, ∀ d ∈ st, d.ver ≠ arg) :
+    (requestEntry arg stacks = .ok .nothing ∧ ∀ w ∈ (versOf stacks).flatten, versionMatch w arg ≠ .ok true) ∨
+    (∃ i v, requestEntry arg stacks = .ok (.found true i v) ∧ v ∈ (versOf stacks).flatten ∧ versionMatch v arg = .ok true ∧
+      ∀ w ∈ (versOf stacks).flatten, versionMatch w arg = .ok true → ∃ r, stdCompare false w v = .ok r ∧ r ≤ 0) := by
+  have hnone : exactLookup arg 0 stacks = none := by
+    cases hx : exactLookup arg 0 stacks with
+    | none => rfl
+    | some q =>
+      obtain ⟨_, _, st, hget, ⟨d, hd, hdv⟩, _⟩ := (exactLookup_spec arg stacks 0).1 q.1 q.2 hx
+      exact absurd hdv (hlit st (List.mem_of_getElem? hget) d hd)
+  rcases C10_preferred_by_expr_is_max arg (versOf stacks) hconv hok with ⟨h1, h2⟩ | ⟨i, v, h1, h2, h3, h4⟩
+  · exact Or.inl ⟨by simp [requestEntry, hrel, h1, hnone], h2⟩
+  · exact Or.inr ⟨i, v, by simp [requestEntry, hrel, h1], h2, h3, h4⟩
+
+/-- **`setup prod arg`, `arg` a version name**: exactly that string (not a version that merely compares equal to it),
+from the first stack of the path that declares it. -/
+theorem C10_entry_explicit (arg : Str) (stacks : List (List Decl)) (hv : wfName arg) :
+    (requestEntry arg stacks = .ok .nothing ∧ ∀ st ∈ stacks, ∀ d ∈ st, d.ver ≠ arg) ∨
+    (∃ i st, requestEntry arg stacks = .ok (.found false i arg) ∧ stacks[i]? = some st ∧ (∃ d ∈ st, d.ver = arg) ∧
+      ∀ k st', k < i → stacks[k]? = some st' → ∀ d ∈ st', d.ver ≠ arg) := by
+  have hp := C10_legal_name_plain arg hv
+  cases hx : exactLookup arg 0 stacks with
+  | none => exact Or.inl ⟨by simp [requestEntry, hp, hx], (exactLookup_spec arg stacks 0).2 hx⟩
+  | some q =>
+    obtain ⟨i, w⟩ := q
+    obtain ⟨rfl, _, st, hget, hdecl, hfirst⟩ := (exactLookup_spec arg stacks 0).1 i w hx
+    exact Or.inr ⟨i, st, by simp [requestEntry, hp, hx], by simpa using hget, hdecl, by simpa using hfirst⟩
+
+/-- **`setup prod "= v"`** is refused. -/
+theorem C10_entry_single_equals (lead gap v : Str) (stacks : List (List Decl))
+    (hl : isWs lead) (hg : isWs gap) (hgne : gap ≠ []) (hv : wfName v) :
+    requestEntry (lead ++ 61 :: (gap ++ v)) stacks = .ok .badSyntax := by
+  simp [requestEntry, C10_legal_single_equals lead gap v hl hg hgne hv]
+
+-- `findProduct("prod", ">= 1.2")`: `current` (on 1.9) is preferred to the latest (1.10); `setup prod ">= 1.2"` takes the latest
+example : findProductExpr [s_current, sLatest] (render (opGe, n_1d2) []) [[⟨n_1d10, []⟩, ⟨n_1d9, [s_current]⟩, ⟨n_1d2, []⟩]] = .ok (some (0, n_1d9)) := by decide
+example : requestEntry (render (opGe, n_1d2) []) [[⟨n_1d10, []⟩, ⟨n_1d9, [s_current]⟩, ⟨n_1d2, []⟩]] = .ok (.found true 0 n_1d10) := by decide
+example : requestEntry n_1d9 [[⟨n_1d10, []⟩], [⟨n_1d9, [s_current]⟩, ⟨n_1d2, []⟩]] = .ok (.found false 1 n_1d9) := by decide
+
 /-! non-vacuity: a chain, its rendering, the loop's answer; a list and its latest member -/
 example : render (opGe, n_1d2) [(opLt, n_1d10)] = [62, 61, 32, 49, 46, 50, 32, 124, 124, 32, 60, 32, 49, 46, 49, 48] := by decide
 #guard Str.toString (render (opGe, n_1d2) [(opLt, n_1d10)]) == ">= 1.2 || < 1.10"
@@ -421,5 +1209,28 @@ theorem C10_arbitrary_cycle_witness :
     stdCompare false n_10 n_1a = .ok (-1) ∧
     stdCompare false n_1a n_2 = .ok (-1) ∧
     stdCompare true n_10 n_1a = .error .unsortable := by decide
+
+/-- Where the conventional class stops.  A component that is not `letters* digits*` has the shape
+`letters* D letter …` with `D` a run of digits, and is compared as a *string* with every other component.
+If `D` has a digit other than `9`, two conventional components close a cycle with it: `1.8a < 1.9 < 1.80 < 1.8a`,
+`0a < 1 < 09 < 0a` (the numeric order of `9`/`80`, `1`/`09` is the reverse of their string order around the
+component).  If `D` is all nines (`1.9a`, `v99b2`) no digit string sorts above it and the order stays
+transitive (exhaustive check in docs/notes/g10.md); so "conventional" can be widened by exactly those
+components and by nothing else over letters and digits. -/
+theorem C10_boundary_witness :
+    stdCompare false n_1d8a n_1d9 = .ok (-1) ∧ stdCompare false n_1d9 n_1d80 = .ok (-1) ∧
+    stdCompare false n_1d80 n_1d8a = .ok (-1) ∧
+    stdCompare false n_0a n_1 = .ok (-1) ∧ stdCompare false n_1 n_09 = .ok (-1) ∧ stdCompare false n_09 n_0a = .ok (-1) ∧
+    convName n_1d8a = false ∧ convName n_0a = false ∧ convName n_1d80 = true ∧ convName n_09 = true := by decide
+
+/-- D5c, the pinned `distrib.Repositories.findPackage(product, Tag("latest"))`: over package repositories whose latest
+versions are `10.0`, `3.0`, `4.0` it answered `4.0` (the candidate was replaced when it was *later* than the next
+repository's latest, and the next one returned on the spot otherwise) — not the maximum.  Repaired (`fix-g10`): the
+loop over the repositories is `latestAcross`, for which `C10_latest_across_is_max` holds. -/
+theorem C10_latest_repos_witness :
+    latestReposPinned 1 [[n_10d0], [n_3d0], [n_4d0]] = .ok (some (2, n_4d0)) ∧
+    latestReposPinned 2 [[n_10d0], [n_3d0], [n_4d0]] = .ok (some (2, n_4d0)) ∧
+    latestAcross [[n_10d0], [n_3d0], [n_4d0]] = .ok (some (0, n_10d0)) ∧
+    stdCompare false n_4d0 n_10d0 = .ok (-1) := by decide
 
 end EupsModel.C10
